@@ -388,7 +388,8 @@ class SimpleProcessTensor(BaseProcessTensor):
         last_cap = tn.Node(caps[-1])
 
         for step in reversed(range(length)):
-            trace_square = tn.Node(self._trace_square)
+            # a rank-3 (delta) tensor has ONE leg for in and out: both traces
+            trace_square = tn.Node(self._trace_in * self._trace_out)
             trace_in = tn.Node(self._trace_in)
             trace_out = tn.Node(self._trace_out)
             ten = tn.Node(self._mpo_tensors[step])
@@ -789,7 +790,8 @@ class FileProcessTensor(BaseProcessTensor):
         last_cap = tn.Node(cap)
 
         for step in reversed(range(length)):
-            trace_square = tn.Node(self._trace_square)
+            # a rank-3 (delta) tensor has ONE leg for in and out: both traces
+            trace_square = tn.Node(self._trace_in * self._trace_out)
             trace_in = tn.Node(self._trace_in)
             trace_out = tn.Node(self._trace_out)
             # the stored tensor: the transforms are already part of
